@@ -198,7 +198,7 @@ theorem exec_eq_of_not_enabled (v : Variant) (s : St) (t : Nat) (i : Instr) (res
   cases i
   all_goals simp only [] at hen
   case idleGo c =>
-    simp only [exec]
+    simp only [exec, flushBody]
     split
     · rfl
     · rename_i h
@@ -206,7 +206,7 @@ theorem exec_eq_of_not_enabled (v : Variant) (s : St) (t : Nat) (i : Instr) (res
       revert hen h
       cases s.holds t <;> cases (s.prog (idleTid t)).isEmpty <;> cases decide (maxThreads ≤ idleTid t) <;> simp
   case srv a =>
-    simp only [exec]
+    simp only [exec, flushBody]
     split
     · rfl
     · rename_i h
@@ -221,7 +221,7 @@ theorem exec_eq_of_not_enabled (v : Variant) (s : St) (t : Nat) (i : Instr) (res
         rw [he]
         rfl
       all_goals exact absurd hen (by decide)
-  all_goals simp only [exec]
+  all_goals simp only [exec, flushBody]
   all_goals repeat' split
   all_goals first | rfl | (exfalso; simp_all; done)
 
@@ -307,7 +307,7 @@ set_option linter.unusedSimpArgs false
 theorem dec_register (v : Variant) (s : St) (t c : Nat) (rest : List Instr) (hlt : t < maxThreads)
     (hs : s.prog t = .register c :: rest) (hen : (s.holds t && !(s.cmd c).registered) = true) :
     mu (exec v s t (.register c) rest) < mu s := by
-  simp only [exec]
+  simp only [exec, flushBody]
   split
   · exfalso; simp_all
   · refine mu_setProg_lt s _ t _ _ rest hlt hs rfl rfl ?_
@@ -318,7 +318,7 @@ theorem dec_register (v : Variant) (s : St) (t c : Nat) (rest : List Instr) (hlt
 theorem dec_closeSwap (v : Variant) (s : St) (t : Nat) (rest : List Instr) (hlt : t < maxThreads)
     (hs : s.prog t = .closeSwap :: rest) : mu (exec v s t .closeSwap rest) < mu s := by
   have := progWeight_completions_le (fun c => (s.cmd c).kind) .err s.pending
-  simp only [exec]
+  simp only [exec, flushBody]
   split
   · refine mu_setProg_lt s _ t _ _ rest hlt hs rfl rfl ?_
     dsimp only
@@ -332,7 +332,7 @@ theorem dec_closeSwap (v : Variant) (s : St) (t : Nat) (rest : List Instr) (hlt 
 theorem dec_cancelOrphans (v : Variant) (s : St) (t : Nat) (ks : List Nat) (rest : List Instr)
     (hlt : t < maxThreads) (hs : s.prog t = .cancelOrphans ks :: rest) :
     mu (exec v s t (.cancelOrphans ks) rest) < mu s := by
-  simp only [exec]
+  simp only [exec, flushBody]
   obtain ⟨h1, h2, h3, h4, h5⟩ := mu_foldl_setCont ks s
   refine mu_setProg_lt s _ t _ _ rest hlt hs h1 h2 ?_
   rw [h3, h4, h5]
@@ -342,7 +342,7 @@ theorem dec_cancelOrphans (v : Variant) (s : St) (t : Nat) (ks : List Nat) (rest
 theorem dec_cancelConts (v : Variant) (s : St) (t c : Nat) (r : Res) (rest : List Instr)
     (hlt : t < maxThreads) (hs : s.prog t = .cancelConts c r :: rest) :
     mu (exec v s t (.cancelConts c r) rest) < mu s := by
-  simp only [exec]
+  simp only [exec, flushBody]
   obtain ⟨h1, h2, h3, h4, h5⟩ := mu_foldl_setCont2 (s.contReqs.filter (·.2 = c))
     (if r = .no then .refused else .cancelled) { s with contReqs := s.contReqs.filter (·.2 ≠ c) }
   refine mu_setProg_lt s _ t _ _ rest hlt hs h1 h2 ?_
@@ -354,7 +354,7 @@ theorem dec_cancelConts (v : Variant) (s : St) (t c : Nat) (r : Res) (rest : Lis
 theorem dec_delByTag (v : Variant) (s : St) (t tag : Nat) (rep : Reply) (caps : Bool) (rest : List Instr)
     (hlt : t < maxThreads) (hs : s.prog t = .delByTag tag rep caps :: rest) :
     mu (exec v s t (.delByTag tag rep caps) rest) < mu s := by
-  simp only [exec]
+  simp only [exec, flushBody]
   split
   · refine mu_setProg_lt s _ t _ _ rest hlt hs rfl rfl ?_
     dsimp only [St.closeConn]
@@ -376,7 +376,7 @@ theorem dec_connRead (v : Variant) (s : St) (t : Nat) (rest : List Instr)
     (hlt : t < maxThreads) (hs : s.prog t = .connRead :: rest)
     (hen : (!s.inbox.isEmpty || s.rerr || s.connClosed || s.srvClosed) = true) :
     mu (exec v s t .connRead rest) < mu s := by
-  simp only [exec]
+  simp only [exec, flushBody]
   repeat' split
   · rename_i h
     have hpos : 1 ≤ s.inbox.length := by
@@ -400,7 +400,7 @@ theorem dec_connRead (v : Variant) (s : St) (t : Nat) (rest : List Instr)
 theorem dec_rdNext (v : Variant) (s : St) (t : Nat) (rest : List Instr)
     (hlt : t < maxThreads) (hs : s.prog t = .rdNext :: rest) :
     mu (exec v s t .rdNext rest) < mu s := by
-  simp only [exec]
+  simp only [exec, flushBody]
   split
   · refine mu_setProg_lt s _ t _ _ rest hlt hs rfl rfl ?_
     simp only [progWeight_cons, progWeight_nil, weight]
@@ -417,7 +417,7 @@ theorem dec_idleGo (v : Variant) (s : St) (t c : Nat) (rest : List Instr)
     (hlt : t < maxThreads) (hs : s.prog t = .idleGo c :: rest)
     (hen : (s.holds t && (s.prog (idleTid t)).isEmpty && !decide (maxThreads ≤ idleTid t)) = true) :
     mu (exec v s t (.idleGo c) rest) < mu s := by
-  simp only [exec]
+  simp only [exec, flushBody]
   split
   · exfalso
     rename_i h
@@ -445,7 +445,7 @@ theorem dec_srv (v : Variant) (s : St) (t : Nat) (a : SrvAct) (rest : List Instr
     (hk : a = .cont → openHeads s ≠ [])
     (hcl : s.srvClosed = false) :
     mu (exec v s t (.srv a) rest) < mu s := by
-  simp only [exec, hcl, Bool.false_eq_true, if_false]
+  simp only [exec, flushBody, hcl, Bool.false_eq_true, if_false]
   cases a <;> simp only [execSrv]
   case reply rep oldest =>
     have hne := hr rep oldest rfl
@@ -523,7 +523,7 @@ theorem exec_decreases (v : Variant) (s : St) (t : Nat) (i : Instr) (rest : List
   case delByTag tag rep caps => exact dec_delByTag v s t tag rep caps rest hlt hs
   case connRead => exact dec_connRead v s t rest hlt hs hen
   case rdNext => exact dec_rdNext v s t rest hlt hs
-  all_goals simp only [exec]
+  all_goals simp only [exec, flushBody]
   all_goals repeat' split
   all_goals
     first
